@@ -7,7 +7,9 @@ import (
 
 	"cosmossdk.io/math"
 	sdk "github.com/cosmos/cosmos-sdk/types"
+	banktypes "github.com/cosmos/cosmos-sdk/x/bank/types"
 
+	opchildtypes "github.com/initia-labs/OPinit/x/opchild/types"
 	ophosttypes "github.com/initia-labs/OPinit/x/ophost/types"
 
 	"verifharness/mon"
@@ -153,7 +155,9 @@ func (c *c04) treeWorkload(n int, shape ref.TreeShape) {
 	c.drain(tc, shape, "tree", nil)
 }
 
-func pow2(n uint) math.Int { return math.NewIntFromBigInt(math.NewInt(1).BigInt().Lsh(math.NewInt(1).BigInt(), n)) }
+func pow2(n uint) math.Int {
+	return math.NewIntFromBigInt(math.NewInt(1).BigInt().Lsh(math.NewInt(1).BigInt(), n))
+}
 
 func (c *c04) amountLattice() {
 	run := c.run
@@ -306,6 +310,88 @@ func (c *c04) emptyRecipient() {
 	}
 }
 
+// hookWithdrawals: withdrawals L2 accepts as part of a deposit hook (a signed transaction with several messages, executed
+// on the recipient's behalf). Acceptance is read from the state (the L2 sequence advanced, the tokens were burned); each
+// accepted withdrawal must be announced, so that it is committed and claimable like any other.
+func (c *c04) hookWithdrawals() {
+	run := c.run
+	type hk struct {
+		name string
+		msgs func(u sim.Account, other sim.Account, l2d, to string) []sdk.Msg
+		nW   int
+	}
+	wd := func(u sim.Account, to, l2d string, a int64) sdk.Msg {
+		return opchildtypes.NewMsgInitiateTokenWithdrawal(u.String(), to, sdk.NewCoin(l2d, math.NewInt(a)))
+	}
+	snd := func(u, o sim.Account, l2d string, a int64) sdk.Msg {
+		return banktypes.NewMsgSend(u.Addr, o.Addr, sdk.NewCoins(sdk.NewCoin(l2d, math.NewInt(a))))
+	}
+	kinds := []hk{
+		{"withdraw", func(u, o sim.Account, l2d, to string) []sdk.Msg { return []sdk.Msg{wd(u, to, l2d, 5)} }, 1},
+		{"withdraw,send", func(u, o sim.Account, l2d, to string) []sdk.Msg {
+			return []sdk.Msg{wd(u, to, l2d, 6), snd(u, o, l2d, 1)}
+		}, 1},
+		{"send,withdraw", func(u, o sim.Account, l2d, to string) []sdk.Msg {
+			return []sdk.Msg{snd(u, o, l2d, 1), wd(u, to, l2d, 7)}
+		}, 1},
+		{"withdraw,withdraw", func(u, o sim.Account, l2d, to string) []sdk.Msg {
+			return []sdk.Msg{wd(u, to, l2d, 8), wd(u, to, l2d, 9)}
+		}, 2},
+		{"withdraw,send,withdraw,send", func(u, o sim.Account, l2d, to string) []sdk.Msg {
+			return []sdk.Msg{wd(u, to, l2d, 10), snd(u, o, l2d, 2), wd(u, to, l2d, 11), snd(u, o, l2d, 3)}
+		}, 2},
+	}
+	for shape := 0; shape < 2; shape++ {
+		tc := newTwoChain(5*time.Second, L2EnvOpts{})
+		l2d := tc.L2.L2Denom("uinit")
+		u, other := tc.L2.Users[0], tc.L2.Users[1]
+		// the recipient needs an account (for the hook's signature) before the hooks run
+		if r := tc.L1Deposit(tc.L1.Users[0], u.String(), "uinit", math.NewInt(1000), nil); r.Class != sim.OK {
+			panic(r.ErrString())
+		}
+		if r, _ := tc.RelayNext(); r.Class != sim.OK {
+			panic(r.ErrString())
+		}
+		var tr []string
+		for _, k := range kinds {
+			n, sq, ok := tc.L2.L2.AccNumSeq(u.Addr)
+			if !ok {
+				panic("recipient has no account")
+			}
+			bz, err := tc.L2.L2.SignTx(u, n, sq, sim.L2ChainID, 400_000, k.msgs(u, other, l2d, tc.L1.Users[3].String())...)
+			if err != nil {
+				panic(err)
+			}
+			if r := tc.L1Deposit(tc.L1.Users[0], u.String(), "uinit", math.NewInt(100), bz); r.Class != sim.OK {
+				panic(r.ErrString())
+			}
+			seqBefore, supBefore, recBefore := tc.L2.NextL2Seq(), sim.Supply(tc.L2.L2.Ctx, tc.L2.L2.BK).AmountOf(l2d), len(tc.AllWithdrawals)
+			res, _ := tc.RelayNext()
+			run.Evaluations++
+			if res.Class != sim.OK {
+				run.Fail("C04.relay", "c04.relay_failed", tr, "relay of a deposit with hook [%s] failed: %s", k.name, res.ErrString())
+				return
+			}
+			accepted := int(tc.L2.NextL2Seq() - seqBefore)
+			burned := supBefore.AddRaw(100).Sub(sim.Supply(tc.L2.L2.Ctx, tc.L2.L2.BK).AmountOf(l2d))
+			announced := tc.AllWithdrawals[recBefore:]
+			sum := math.ZeroInt()
+			for _, a := range announced {
+				sum = sum.Add(a.Amount)
+			}
+			tr = append(tr, fmt.Sprintf("deposit 100 with hook [%s]: L2 sequence advanced by %d, %s burned, %d withdrawal(s) announced totalling %s", k.name, accepted, burned, len(announced), sum))
+			run.Check("C04.accepted_withdrawal_is_announced", accepted == len(announced) && burned.Equal(sum), "c04.accepted_withdrawal_not_announced", tr,
+				"hook [%s]: L2 consumed %d withdrawal sequence(s) and burned %s, but announced %d withdrawal(s) totalling %s — the unannounced ones are never committed and cannot be claimed", k.name, accepted, burned, len(announced), sum)
+			if accepted == k.nW {
+				run.Distinct(fmt.Sprintf("hook/%s/shape%d", k.name, shape))
+			} else {
+				run.Count("C04.hook_did_not_execute_as_scripted")
+			}
+		}
+		c.drain(tc, ref.TreeShape(shape), "hook", tr)
+	}
+}
+
 func (c *c04) stringsWorkload(thorough bool) {
 	run := c.run
 	denoms := []string{"abc", "uinit", "ibc/27394FB092D2ECCD56123C74F36E4C1F926001CEADA9CA97EA622B25F41E5EB2", "move/" + strings.Repeat("ab", 30), "a" + strings.Repeat("x", 127), "evm/0xAbC.d_e-f:g"}
@@ -357,6 +443,8 @@ func checkC04(run *mon.Run, rng *mon.Rand, thorough bool) {
 	c.stringsWorkload(thorough)
 	c.bigEscrow()
 	c.emptyRecipient()
+	run.Declare("C04.accepted_withdrawal_is_announced", 8)
+	c.hookWithdrawals()
 	maxN := pick(thorough, 48, 400)
 	for n := 1; n <= maxN && !run.TooMany(); n++ {
 		for shape := 0; shape < 2; shape++ {
